@@ -134,4 +134,7 @@ def Node.children : Node χ → List (UInt8 × χ)
 
 def Node.empty : Node χ := .n4 [] []
 
+/-- the kind of a node that has received `n` children (nodes grow when full and never shrink) -/
+def kindFor (n : Nat) : Nat := if n ≤ 4 then 4 else if n ≤ 16 then 16 else if n ≤ 48 then 48 else 256
+
 end CGV.ArtNode
